@@ -21,6 +21,9 @@ const TOKENS: &[&str] = &[
 
 struct CycleResolver {
     refs: std::collections::BTreeMap<String, Dict>,
+    /// what an id without a record resolves to: 0 nothing, 1 an empty record, 2 a record without
+    /// any ref tag, 3 a record whose ref tags point back at the same id
+    unknown: std::sync::atomic::AtomicUsize,
 }
 impl PathResolver for CycleResolver {
     fn resolve_for(&self, root: &Dict, path: &Path) -> Value {
@@ -30,7 +33,15 @@ impl PathResolver for CycleResolver {
         Value::Null
     }
     fn resolve_ref(&self, r: &Ref) -> Option<Dict> {
-        self.refs.get(&r.value).cloned()
+        if let Some(d) = self.refs.get(&r.value) {
+            return Some(d.clone());
+        }
+        match self.unknown.load(std::sync::atomic::Ordering::Relaxed) {
+            0 => None,
+            1 => Some(Dict::new()),
+            2 => Some(lib_dict(&[("dis", V::str("stub"))])),
+            _ => Some(lib_dict(&[("id", V::Ref(r.value.clone(), None)), ("siteRef", V::Ref(r.value.clone(), None)), ("equipRef", V::Ref(r.value.clone(), None)), ("a", V::Ref(r.value.clone(), None))])),
+        }
     }
 }
 
@@ -86,7 +97,7 @@ fn world() -> &'static World {
             lib_dict(&[("a", r("nowhere")), ("siteRef", r("nowhere"))]),
             lib_dict(&[("a", V::str("s")), ("b", V::num(5.0)), ("true", V::Marker), ("not", V::Marker)]),
         ];
-        World { ns, resolver: CycleResolver { refs }, records }
+        World { ns, resolver: CycleResolver { refs, unknown: std::sync::atomic::AtomicUsize::new(0) }, records }
     })
 }
 
@@ -297,6 +308,9 @@ fn long_filters() -> &'static Vec<Vec<u8>> {
             v.extend_from_slice(b" and b");
             out.push(v);
             out.push(t);
+        }
+        for (text, city, _) in crate::model::time_ref::transition_texts() {
+            out.push(format!("ts >= {text} {city}").into_bytes());
         }
         for n in (1..=72usize).chain([127, 128, 129, 255, 256, 257, 1000]) {
             let name = "a".repeat(n);
